@@ -49,7 +49,7 @@ LEVEL_TEXT = ("Write-group programs are sampled (Hypothesis); for each the "
 LEVEL_NOTE = ("Sampled programs over linear histories of <= 6 revisions; the "
               "completeness model is the harness's own reading of the property "
               "text and leaves undecided combinations unasserted.")
-REGISTERED = False
+REGISTERED = True
 NONTRIVIAL_FLOOR = {"quick": 120, "thorough": 2500}
 
 F28 = "C06/knitpack-accepts-incomplete-write-group"
